@@ -143,6 +143,11 @@ func (ts *BackgroundTaskManager) InvokeBackgroundTask(do func(context.Context), 
 			select {
 			case <-ch: // some prioritized tasks started; retry it later
 				cancel()
+				// Wait for the cancelled task to return. Otherwise it can still be
+				// running (and writing the caller's variables) when it is executed
+				// again or after this function returned, and it escapes the
+				// concurrency limit because the semaphore is released below.
+				<-done
 				return false
 			case <-done: // All tasks completed
 			}
